@@ -167,6 +167,18 @@ Theorem svcb_roundtrip : forall prio target ps b A P,
 Proof. exact svcb_roundtrip_thm. Qed.
 Print Assumptions svcb_roundtrip.
 
+(* LOC (integer skeleton; the reader's float detour is covered by the correspondence): legal,
+   canonical coordinates, altitude inside the 32-bit field, sizes expressible as b*10^e *)
+Theorem loc_roundtrip : forall lat lon alt size hp vp b A P,
+  coord_canon 90 lat -> coord_canon 180 lon ->
+  0 <= alt + 10000000 < 4294967296 ->
+  In size loc_sizes -> In hp loc_sizes -> In vp loc_sizes ->
+  hand_encode_rdata HLoc None [VL [lat]; VL [lon]; VS (VI alt); VS (VI size); VS (VI hp); VS (VI vp)] = Ok b ->
+  hand_decode_rdata HLoc None (A ++ b ++ P) (length A) (length b)
+  = Ok [VL [lat]; VL [lon]; VS (VI alt); VS (VI size); VS (VI hp); VS (VI vp)].
+Proof. exact loc_roundtrip_thm. Qed.
+Print Assumptions loc_roundtrip.
+
 (* ---------- non-vacuity: the hypotheses are satisfiable on realistic records ---------- *)
 Definition mx_schema := [FS (FU 2 65535); FS (FName true)].
 Definition mx_value := [VS (VI 10); VS (VN [[109; 97; 105; 108]; [101; 120]; []])].
@@ -266,3 +278,15 @@ Example svcb_duplicate_key_normalised :
   hand_decode_rdata HSvcb None [0; 1; 0; 0; 3; 0; 2; 0; 80; 0; 3; 0; 2; 1; 187] 0 15
   = Ok [VS (VI 1); VS (VN [[]]); VL [[VI 3; VB [1; 187]]]].
 Proof. vm_compute. reflexivity. Qed.
+
+Example loc_example :
+  let lat := [VI 42; VI 21; VI 54; VI 0; VI 1] in
+  let lon := [VI 71; VI 6; VI 18; VI 0; VI (-1)] in
+  coord_canon 90 lat /\ coord_canon 180 lon /\ In 100 loc_sizes /\ In 1000000 loc_sizes /\
+  exists b, hand_encode_rdata HLoc None [VL [lat]; VL [lon]; VS (VI (-2400)); VS (VI 100); VS (VI 1000000); VS (VI 1000)] = Ok b.
+Proof.
+  cbn [coord_canon]. repeat split; try lia; try (left; reflexivity); try (right; reflexivity).
+  - vm_compute. tauto.
+  - vm_compute. tauto.
+  - eexists. vm_compute. reflexivity.
+Qed.
